@@ -106,7 +106,21 @@ def run(ctx):
     pushes = [(bb, t) for bb, t in K.calls(ff) if "vec::Vec" in (F.callee(t) or {}).get("pretty", "") and (F.callee(t) or {}).get("pretty", "").endswith("::push")]
     rec = K.calls_to(ff, ff.key)
     hdr_param = 2   # (self, header, body)
-    if len(mf) != 1 or len(cuts) != 1 or len(rec) != 1 or len(pushes) != 2:
+    # every write of MF: only `set_is_last_fragment(false)` (MF <- 1) on a *copy* of the header; the header that is carried
+    # forward (the remainder, and a piece that already fits) keeps the MF it arrived with (RFC 791: MF <- OMF)
+    bad_mf = []
+    for bb, t in mf:
+        t0 = dep.expr_tree(ff, F.call_args(t)[0])
+        on_param = t0[0] == "field" and t0[1][0] == "var" and t0[1][2] == hdr_param
+        if on_param:
+            bad_mf.append("the more-fragments flag of the datagram being carried forward is overwritten at %s (%s): a middle fragment that is fragmented again would mark its last piece as the end of the original datagram" % (
+                F.call_loc(t), "cleared" if F.const_int(F.call_args(t)[1]) == 1 else "set" if F.const_int(F.call_args(t)[1]) == 0 else "written"))
+        elif F.const_int(F.call_args(t)[1]) != 0:
+            bad_mf.append("set_is_last_fragment at %s is not called with the constant `false`" % F.call_loc(t))
+    good_mf = [x for x in mf if not any(F.call_loc(x[1]) in m for m in bad_mf)]
+    if bad_mf:
+        ctx.bad("F-MF", "F-MF:Fragmentation::fragment", ff.span, "; ".join(bad_mf))
+    elif len(good_mf) != 1 or len(cuts) != 1 or len(rec) != 1 or len(pushes) != 2:
         probs.append("unexpected shape: %d set_is_last_fragment, %d cut, %d recursive calls, %d pushes" % (len(mf), len(cuts), len(rec), len(pushes)))
         ctx.bad("F-MF", "F-MF:Fragmentation::fragment", ff.span, "; ".join(probs))
     else:
